@@ -235,6 +235,9 @@ impl Scenario for C15 {
                 out.accepted = call.ok;
                 out.expect(call.ok == want, "upgrade.outcome", || format!("{:?}: ok={} ({}), model {}", a, call.ok, call.err, want));
                 if call.ok {
+                    // the announcement belongs to the migration: the code swap itself announces nothing
+                    let r = match_events(&call.events, &[], &["upgraded"]);
+                    out.expect(r.is_ok(), "upgrade.event", || format!("upgrade() itself announced an upgrade: {}", r.unwrap_err()));
                     if !m.window {
                         m.closed_hash[m.owner] = Some(h0);
                     }
